@@ -1626,6 +1626,19 @@ def pinned_hashes(repo):
 
 
 def generate(repo):
+    """fail-closed: when the source cannot be translated the stale generated file is replaced by one that does not compile,
+    so that nothing is proved or evaluated against definitions that no longer describe the source"""
+    try:
+        return _generate(repo)
+    except TranslationError as e:
+        import tables
+        os.makedirs(tables.GEN, exist_ok=True)
+        with open(os.path.join(tables.GEN, "TablesCodec.v"), "w", encoding="utf-8") as f:
+            f.write("(* GENERATION FAILED: %s *)\nDefinition translation_failed : False := I.\n" % str(e).replace("*)", "* )"))
+        raise
+
+
+def _generate(repo):
     title = check_report_classes(repo)
     got = pinned_hashes(repo)
     for k, h in got.items():
